@@ -183,7 +183,8 @@ fn tok_profile(profile: &str, seed: u64, n: usize, out: &mut dyn Write) {
         }
         drop(dict);
         let per_dict = if profile == "c10" { 3 } else { 6 + rng.below(10) };
-        for _ in 0..per_dict {
+        for case_no in 0..per_dict {
+            let first_case_of_dict = case_no == 0;
             if made >= n {
                 break;
             }
@@ -366,7 +367,23 @@ fn tok_profile(profile: &str, seed: u64, n: usize, out: &mut dyn Write) {
                             _ => dops.push(DOp::WriteRead),
                         }
                     }
-                    let s = gen_sentence(&mut crng, &d, &cfg, 6);
+                    // the sentence draws from the system surfaces AND from the surfaces of the user lexicons of the history
+                    let mut d2 = d.clone();
+                    for op in &dops {
+                        if let DOp::User(b) = op {
+                            for row in String::from_utf8_lossy(b).lines() {
+                                let cell = if row.starts_with('"') {
+                                    row[1..].split("\",").next().unwrap_or("").replace("\"\"", "\"")
+                                } else {
+                                    row.split(',').next().unwrap_or("").to_string()
+                                };
+                                if !cell.is_empty() {
+                                    d2.surfaces.push(cell);
+                                }
+                            }
+                        }
+                    }
+                    let s = gen_sentence(&mut crng, &d2, &cfg, 6);
                     wops.extend([WOp::Reset(s), WOp::Tokenize, WOp::QueryTokens, WOp::Lattice]);
                 }
                 _ => {
@@ -382,8 +399,17 @@ fn tok_profile(profile: &str, seed: u64, n: usize, out: &mut dyn Write) {
                     }
                     // one third of the cases reuse the worker for several sentences
                     let nsent = if crng.chance(1, 3) { 2 + crng.below(2) } else { 1 };
-                    for _ in 0..nsent {
-                        let s = gen_sentence(&mut crng, &d, &cfg, 7);
+                    for si in 0..nsent {
+                        let mut s = gen_sentence(&mut crng, &d, &cfg, 7);
+                        // c10 profile: the first sentence of a dictionary's first case contains every lexicon surface once (an accepted
+                        // dictionary must be usable through EVERY entry it accepted)
+                        if profile == "c10" && si == 0 && first_case_of_dict {
+                            let mut all: Vec<String> = d.surfaces.clone();
+                            all.sort();
+                            all.dedup();
+                            crng.shuffle(&mut all);
+                            s = all.concat() + &s;
+                        }
                         wops.extend([WOp::Reset(s), WOp::Tokenize, WOp::QueryTokens, WOp::Lattice]);
                     }
                 }
